@@ -13,6 +13,8 @@ OneBad == {a \in [Files -> FileConds] : Cardinality({f \in Files : a[f] # "ok"})
 
 Obs(p, mc, avail, order, pol) ==
   [pub |-> p.id, mc |-> mc, avail |-> avail, order |-> order, pol |-> pol,
+   \* what the engine looks at: the working copy (of an earlier run when the repository is unreachable)
+   eff |-> [pub |-> last'.pub.id, mc |-> last'.mc, avail |-> last'.avail],
    exp |-> [stored |-> stored'.id, committed |-> committed', accepted |-> accepted', path |-> last'.path]]
 
 Step(p, mc, avail, order, pol) ==
